@@ -7,7 +7,8 @@ EXPLANATION = ("Structure of the certificate bookkeeping on every path: every se
                "multiplier k+1 with tracked object k (R-TRACK); symbolic producer/consumer equation between the solver constraints an object emits and "
                "the slots the cvxpy recovery skips (R-SLOTS); sign parity of the Lagrangian across the reconstruction and the MOSEK dual transformation "
                "(R-SIGN); dual mode returns the constant of the identity (R-RET); every LMI whose entry-equality multipliers are dropped is symmetric as "
-               "written (R-LMIDUAL).")
+               "written (R-LMIDUAL)."
+               ' Also: the residual comes from the single capture before any dimension reduction (R-ORDER), every tracked object contributes to the reconstruction, and the dictionary helpers the constant is read through are interpreted per key class.')
 TRUSTED = ["CPython ast", "cvxpy dual sign convention for <= / == / >> constraints of a maximisation problem", "MOSEK: y and -barsj are the multipliers in that convention"]
 ASSUMPTIONS = ["non-negativity / positive semidefiniteness of the numbers and 'up to solver tolerance' are not decided"]
 
